@@ -134,3 +134,18 @@ def split_prefixes(task, depth, make_oracles=None, learner_classes=None, labels=
         t["label"] = "%s/%s" % (task.get("label", ""), "".join(map(str, p)))
         out.append(t)
     return out
+
+
+def bystander_tasks(label, cfg, R, T_long, T_short=24, bases=("twopeak", "alt"), k=1, **extra):
+    """Task family `by/...`: the same oracle, with a second instance of the same class (other parameters, moved and
+    scaled box; configs.bystander_of) constructed right after the object under check and driven in lock-step with it
+    (world.Bystander).  E-dev(T_short, k) on the first base script plus the bare base scripts (k = 0) over T_long rounds."""
+    from . import configs
+
+    c = configs.with_bystander(cfg)
+    ts = [dict({"kind": "algo", "label": "by/%s/dev" % label, "cfg": c, "mode": "dev", "T": T_short, "R": list(R), "base": bases[0], "k": k,
+                "cost": 3}, **extra)]
+    for b in bases:
+        ts.append(dict({"kind": "algo", "label": "by/%s/%s" % (label, b), "cfg": c, "mode": "dev", "T": T_long, "R": list(R), "base": b, "k": 0,
+                        "cost": 1}, **extra))
+    return ts
